@@ -48,12 +48,19 @@ def w2c2_binary():
     return _w2c2_copy
 
 
+import threading
+_sched_lock = threading.Lock()
+
+
 def sched_obj(outdir):
+    """sched.c: always gcc -O2 WITHOUT sanitizers and without the renames"""
     o = os.path.join(outdir, 'sched.o')
-    if not os.path.exists(o):
-        r = run(['gcc', '-O2', '-g', '-Wall', '-Wextra', '-c', os.path.join(MC, 'sched.c'), '-o', o])
-        if r.returncode != 0:
-            raise MachineryError('cannot build sched.c: ' + r.stderr.decode()[-2000:])
+    with _sched_lock:
+        if not os.path.exists(o):
+            r = run(['gcc', '-O2', '-g', '-Wall', '-Wextra', '-c', os.path.join(MC, 'sched.c'), '-o', o + '.tmp.o'])
+            if r.returncode != 0:
+                raise MachineryError('cannot build sched.c: ' + r.stderr.decode()[-2000:])
+            os.rename(o + '.tmp.o', o)
     return o
 
 
@@ -194,8 +201,9 @@ class Matrix:
     """Runs (case x flavour) explorations in parallel, applies the oracle to every distinct outcome, collects
     failures per key with the smallest example, replays before reporting, fills the evidence counters."""
 
-    def __init__(self, chk, origin_dirs, allowed_status=('ok',)):
+    def __init__(self, chk, origin_dirs, allowed_status=('ok',), projection=None):
         self.chk = chk
+        self.projection = projection or (lambda o: (o['status'], o['obs'], o['end']))
         self.origin_dirs = list(origin_dirs)
         self.allowed_status = set(allowed_status)
         self.fail = {}          # key -> dict(example=..., cases=set, schedules=int)
@@ -297,9 +305,10 @@ class Matrix:
             if job['flavour'] == job.get('count_flavour', 'plain'):
                 st['cases'] += 1
                 st['states'] += len(res['outcomes'])
-                if len(res['outcomes']) > 1:
+                nproj = len(set(self.projection(o) for o in res['outcomes']))
+                if nproj > 1:
                     st['nontrivial_cases'] += 1
-                if len(self.samples) < 6 and len(res['outcomes']) > 1:
+                if len(self.samples) < 6 and nproj > 1:
                     o = res['outcomes'][-1]
                     self.samples.append({'case': job['case'], 'flavour': job['flavour'], 'schedule': o['sched'], 'enabled_set_sizes': o['enabled'],
                                          'observations': o['obs'].strip().split('\n'), 'end_state': o['end'], 'schedules_with_this_outcome': o['count'],
